@@ -1686,11 +1686,17 @@ class Engine:
             raise Unsupported('complex comprehension')
         g = e.generators[0]
         out = []
+        # opt-in: the sidecar models a comprehension whose body is a stateful callee (e.g. decoding `count` records
+        # from a packet) by a stub keyed 'listcomp <element expression text>'; the stub gets the iterable's value
+        lc_stub = self.spec.stubs.get('listcomp ' + ast.unparse(e.elt))
         for s, it in self.ev(g.iter, st):
             if isinstance(it, Raised):
                 out.append((s, it))
                 continue
             it = self.deref(s, it)
+            if lc_stub is not None and not g.ifs:
+                out.extend(self.apply_stub(s, lc_stub, 'listcomp ' + ast.unparse(e.elt), None, [it], {}, e))
+                continue
             if isinstance(it, (VPy, VSeq)) and getattr(self.spec, 'map_comprehensions', False):
                 out.extend(self.map_comprehension(e, g, s, it))
                 continue
